@@ -207,6 +207,8 @@ func init() {
 	// a long text of multi-byte runes (600 bytes): any byte-offset truncation of a
 	// message containing it is likely to fall inside a rune
 	tok.RegisterLiteral("L_big", strings.Repeat("é世", 120))
+	// a text longer than any size limit a reporting path might apply (4.6 KB)
+	tok.RegisterLiteral("L_pad", "Y"+strings.Repeat("p", 4600)+"Y")
 	tok.RegisterLiteral("L_NoDomain", string(errors.NoDomain))
 	if st := grpcstatus.Error(codes.NotFound, "\x01").Error(); strings.HasSuffix(st, "\x01") {
 		tok.RegisterLiteral("L_rpcNotFound", st[:len(st)-1])
